@@ -9,7 +9,7 @@
 From Coq Require Import Permutation Sorted.
 From V.Lib Require Import Base MachInt.
 From V.Gen Require Import C17Consts.
-From V.C17 Require Import Model Spec Corr Wf ProofsArith ProofsShuffle ProofsAnchor ProofsWake ProofsClassify ProofsCanon ProofsPerm ProofsWake2 ProofsShift Bridge.
+From V.C17 Require Import Model Spec Corr Wf ProofsArith ProofsShuffle ProofsAnchor ProofsWake ProofsClassify ProofsCanon ProofsPerm ProofsWake2 ProofsShift ProofsRebuild Bridge.
 Local Open Scope Z_scope.
 
 (* ------------------------------------------------------------------------------------------ *)
@@ -246,6 +246,39 @@ Theorem C17_shift_seq_anchor_monotone : forall oc I, 0 < I <= u32_max -> forall 
   Forall (fun d => 0 <= d) deltas -> Forall stx_wf txs ->
   shift_seq oc I deltas txs ws = Ok (post, r) -> Forall2 anchor_le txs post /\ Forall stx_wf post.
 Proof. exact shift_seq_anchor_monotone. Qed.
+
+(* ------------------------------------------------------------------------------------------ *)
+(** * Rebuild of an expired transfer (engine.rs [rebuild_expired_transfer_inner], scheduling half) *)
+
+(** the expiry of a rebuilt row is the canonical rolling expiry of ITS OWN new scheduled height *)
+Theorem C17_rebuild_expiry_canonical : forall oc I cap nu63 funding tip pend ws ds sched ex an,
+  rebuild_schedule oc I cap nu63 funding tip pend ws ds = Ok (sched, ex, an) -> ex = expiry_spec sched.
+Proof. exact rebuild_expiry_canonical. Qed.
+
+(** its anchor is admissible at its own new scheduled height: grid boundary, above the activation,
+    not before the funding note, strictly below the most recent boundary, within the age cap *)
+Theorem C17_rebuild_anchor_admissible : forall oc I cap nu63 funding tip pend ws ds,
+  0 < I <= u32_max -> 0 <= nu63 <= u32_max -> 0 <= funding <= u32_max -> 0 <= tip <= u32_max ->
+  Forall (fun x => 0 <= x <= u32_max) pend -> Forall (fun x => 0 <= x) ds ->
+  forall sched ex an, rebuild_schedule oc I cap nu63 funding tip pend ws ds = Ok (sched, ex, an) ->
+  exists b, an = Some b /\ anchor_ok I nu63 funding sched b = true.
+Proof. exact rebuild_anchor_admissible. Qed.
+
+(** the new schedule is one drawn delay within the cap past the chain base, never before the target *)
+Theorem C17_rebuild_sched_range : forall I cap nu63 funding tip pend ws ds oc,
+  0 <= tip <= u32_max -> Forall (fun x => 0 <= x <= u32_max) pend -> Forall (fun x => 0 <= x) ds ->
+  forall sched ex an, rebuild_schedule oc I cap nu63 funding tip pend ws ds = Ok (sched, ex, an) ->
+  chain_base tip pend <= sched <= Z.min u32_max (chain_base tip pend + cap) /\ Z.min u32_max (tip + 1) <= sched.
+Proof. intros I cap nu63 funding tip pend ws ds oc. exact (rebuild_sched_range oc I cap nu63 funding tip pend ws ds). Qed.
+
+(** NoCandidateAnchor exactly when the new schedule has no admissible boundary *)
+Theorem C17_rebuild_no_anchor_iff : forall oc I cap nu63 funding tip pend ws ds,
+  0 < I <= u32_max -> 0 <= nu63 <= u32_max -> 0 <= funding <= u32_max -> 0 <= tip <= u32_max ->
+  Forall (fun x => 0 <= x <= u32_max) pend -> Forall (fun x => 0 <= x) ds ->
+  (rebuild_schedule oc I cap nu63 funding tip pend ws ds = Err tt <->
+   exists d rest, delay_draw cap ds = Ok (d, rest) /\
+                  forall b, anchor_ok I nu63 funding (sat_add_u32 (chain_base tip pend) d) b = false).
+Proof. exact rebuild_no_anchor_iff. Qed.
 
 (* ------------------------------------------------------------------------------------------ *)
 (** * Sync wake-ups *)
